@@ -514,6 +514,9 @@ def scales(spec):
     fscale = np.maximum(np.maximum(lo, hi), 0.2 * big)
     tf = spec.get("tscale_factor", 1.0)
     ff = spec.get("fscale_factor", 1.0)
+    if isinstance(ff, (list, tuple)):
+        # per-field factors (a user who knows one direction better than the other): unequal scales per field
+        ff = np.array([float(ff[k % len(ff)]) for k in range(len(fscale))])
     return float(tscale * tf), fscale * ff
 
 
@@ -788,6 +791,8 @@ def st_guess(draw):
         g = None
     tf = draw(st.sampled_from([1.0, 1.0, 0.5, 2.0]))
     ff = draw(st.sampled_from([1.0, 1.0, 0.3, 0.1]))
+    if draw(st.sampled_from([False, False, False, True])):
+        ff = list(draw(st.sampled_from([(1.0, 0.1), (0.1, 1.0), (0.3, 1.0), (1.0, 0.25), (0.2, 0.05)])))
     return g, tf, ff
 
 
